@@ -677,3 +677,270 @@ Lemma attr_chain_legacy_refuted_proof :
 Proof.
   exists witness_attr_chain. split; [eexists; vm_compute; reflexivity|]. split; [vm_compute; discriminate | vm_compute; reflexivity].
 Qed.
+
+(* ------------------------------------------------------------------ totality of the model on every input *)
+(** [okres n r]: the model neither ran out of fuel nor hit an enum_unwrap!/unwrap panic, and what it leaves
+    unread has at most [n] tokens *)
+Definition okres {A} (n : nat) (r : res (A * list tok)) : Prop :=
+  r <> Fuel /\ r <> Panic /\ forall a rest, r = Ok (a, rest) -> length rest <= n.
+
+Lemma okres_ok : forall A n (a : A) rest, length rest <= n -> okres n (Ok (a, rest)).
+Proof. intros. repeat split; try discriminate. intros a' rest' H'. inversion H'; subst. assumption. Qed.
+Lemma okres_err : forall A n, @okres A n Err.
+Proof. intros. repeat split; discriminate. Qed.
+Lemma okres_unm : forall A n, @okres A n Unmodelled.
+Proof. intros. repeat split; discriminate. Qed.
+Lemma okres_weaken : forall A n m (r : res (A * list tok)), okres n r -> n <= m -> okres m r.
+Proof. intros A n m r (H1 & H2 & H3) Hle. repeat split; auto. intros a rest E. specialize (H3 a rest E). lia. Qed.
+
+Lemma okres_bind : forall A B n m (r : res (A * list tok)) (f : A * list tok -> res (B * list tok)),
+  okres n r -> (forall a rest, length rest <= n -> okres m (f (a, rest))) -> okres m (bind r f).
+Proof.
+  intros A B n m r f (H1 & H2 & H3) Hf. destruct r as [[a rest]| | | |]; simpl.
+  - apply Hf. apply (H3 a rest). reflexivity.
+  - apply okres_err.
+  - congruence.
+  - apply okres_unm.
+  - congruence.
+Qed.
+
+Definition extra (below : list (binop * expr)) : nat := match below with [] => 0 | _ => 1 end.
+
+Definition T_all (F : nat) : Prop :=
+  (forall min w ts, 8 * length ts + 2 <= F -> okres (pred (length ts)) (p_expr false F min w ts)) /\
+  (forall ts, 8 * length ts + 1 <= F -> okres (pred (length ts)) (p_lhs false F ts)) /\
+  (forall obj ts, 8 * length ts + 5 <= F -> okres (length ts) (p_chain false F obj ts)) /\
+  (forall obj ts, 8 * length ts + 4 <= F -> okres (length ts) (p_juxt false F obj ts)) /\
+  (forall ts, starts_args ts = 1 -> 8 * length ts + 3 <= F -> okres (pred (length ts)) (p_args false F ts)) /\
+  (forall lp acc ts, 8 * length ts + 2 <= F -> okres (length ts) (p_args_loop false F lp acc ts)) /\
+  (forall chunk min w top below ts, 8 * length ts + 4 + extra below <= F ->
+      okres (length ts) (p_loop false F chunk min w (stk top below) ts)).
+
+Lemma loop_exit_single : forall e ts, loop_exit [IExpr e] ts = Ok (e, ts).
+Proof. reflexivity. Qed.
+
+Lemma okres_bind' : forall A B n m (r : res (A * list tok)) (f : A * list tok -> res (B * list tok)),
+  okres n r -> (forall a rest, r = Ok (a, rest) -> length rest <= n -> okres m (f (a, rest))) -> okres m (bind r f).
+Proof.
+  intros A B n m r f (H1 & H2 & H3) Hf. destruct r as [[a rest]| | | |]; simpl.
+  - apply Hf; [reflexivity|]. apply (H3 a rest). reflexivity.
+  - apply okres_err.
+  - congruence.
+  - apply okres_unm.
+  - congruence.
+Qed.
+
+Lemma starts_args_nonempty : forall ts, starts_args ts = 1 -> 1 <= length ts.
+Proof. intros [|t r] H; [discriminate|simpl; lia]. Qed.
+
+Section Step.
+Variable F : nat.
+Hypothesis IH : T_all F.
+
+Let IHe := proj1 IH.
+Let IHl := proj1 (proj2 IH).
+Let IHc := proj1 (proj2 (proj2 IH)).
+Let IHj := proj1 (proj2 (proj2 (proj2 IH))).
+Let IHa := proj1 (proj2 (proj2 (proj2 (proj2 IH)))).
+Let IHt := proj1 (proj2 (proj2 (proj2 (proj2 (proj2 IH))))).
+Let IHp := proj2 (proj2 (proj2 (proj2 (proj2 (proj2 IH))))).
+
+Lemma T_expr : forall min w ts, 8 * length ts + 2 <= S F -> okres (pred (length ts)) (p_expr false (S F) min w ts).
+Proof.
+  intros min w ts HF. simpl.
+  eapply okres_bind'; [apply IHl; lia|]. intros e r Heq Hr. cbv beta iota.
+  destruct ts as [|t ts'].
+  - destruct F; [lia|]. simpl in Heq. discriminate.
+  - simpl length in *. simpl pred in *.
+    eapply okres_weaken; [apply (IHp false min w e [] r); simpl; lia | exact Hr].
+Qed.
+
+Lemma T_lhs : forall ts, 8 * length ts + 1 <= S F -> okres (pred (length ts)) (p_lhs false (S F) ts).
+Proof.
+  intros ts HF. destruct ts as [|t r]; [apply okres_err|]. simpl length in *. simpl pred.
+  destruct t.
+  - (* identifier *) simpl. apply IHc. lia.
+  - (* literal *) simpl. destruct r as [|t1 r1]; [apply okres_ok; simpl; lia|].
+    destruct t1; try (apply okres_ok; simpl; lia); apply okres_unm.
+  - apply okres_err.
+  - (* prefix *) simpl. destruct (is_unary_cat p); [|apply okres_unm].
+    eapply okres_bind'; [apply IHe; lia|]. intros e r' _ Hr. cbv beta iota. apply okres_ok. lia.
+  - apply okres_unm.
+  - (* parenthesis *)
+    assert (Hgen : okres (length r)
+                     (bind (p_expr false F None true r)
+                           (fun '(e, r') => match r' with TRP :: r'' => Ok (e, r'') | _ => Err end))).
+    { eapply okres_bind'; [apply IHe; lia|]. intros e r' _ Hr. cbv beta iota.
+      destruct r' as [|t1 r1]; [apply okres_err|]. destruct t1; try apply okres_err.
+      apply okres_ok. simpl in Hr. lia. }
+    simpl. destruct r as [|t1 r1]; [exact Hgen|]. destruct t1; try exact Hgen. apply okres_unm.
+  - apply okres_err.
+  - apply okres_err.
+Qed.
+
+Lemma T_juxt : forall obj ts, 8 * length ts + 4 <= S F -> okres (length ts) (p_juxt false (S F) obj ts).
+Proof.
+  intros obj ts HF. simpl. destruct (starts_args ts) as [|[|[|k]]] eqn:E; try (apply okres_ok; lia).
+  - pose proof (starts_args_nonempty _ E).
+    eapply okres_bind'; [apply IHa; [exact E|lia]|]. intros args r _ Hr. cbv beta iota.
+    eapply okres_weaken; [apply IHj; lia | lia].
+  - apply okres_unm.
+Qed.
+
+Lemma T_chain : forall obj ts, 8 * length ts + 5 <= S F -> okres (length ts) (p_chain false (S F) obj ts).
+Proof.
+  intros obj ts HF.
+  assert (Hj : okres (length ts) (p_juxt false F obj ts)) by (apply IHj; lia).
+  destruct ts as [|t r]; [exact Hj|]. destruct t; try exact Hj.
+  - (* `.` *) destruct adj; [|exact Hj]. simpl.
+    destruct r as [|t2 r']; [apply okres_err|].
+    destruct t2; try apply okres_err.
+    + eapply okres_weaken; [apply IHc; simpl in HF; lia | simpl; lia].
+    + destruct k; try apply okres_err. apply okres_unm.
+  - (* `(` *) destruct adj; [|exact Hj]. simpl p_chain.
+    change (p_chain false (S F) obj (TLP true :: r))
+      with (bind (p_args false F (TLP true :: r)) (fun '(args, r0) => p_chain false F (mk_call obj args) r0)).
+    eapply okres_bind'; [apply IHa; [reflexivity|lia]|]. intros args r0 _ Hr. cbv beta iota.
+    simpl in Hr. eapply okres_weaken; [apply IHc; simpl in HF; lia | simpl; lia].
+Qed.
+
+Lemma T_tl : forall lp acc ts, 8 * length ts + 2 <= S F -> okres (length ts) (p_args_loop false (S F) lp acc ts).
+Proof.
+  intros lp acc ts HF. destruct ts as [|t r]; [apply okres_ok; lia|].
+  destruct t; try (apply okres_ok; lia).
+  - (* `)` *) simpl. destruct lp; apply okres_ok; simpl; lia.
+  - (* `,` *)
+    assert (Hgen : okres (length (TComma :: r))
+                     (bind (p_expr false F None false r)
+                           (fun '(a, r1) => p_args_loop false F lp (acc ++ [a]) r1))).
+    { eapply okres_bind'; [apply IHe; simpl in HF; lia|]. intros a r1 _ Hr. cbv beta iota.
+      eapply okres_weaken; [apply IHt; simpl in HF; lia | simpl; lia]. }
+    simpl p_args_loop. destruct r as [|t1 r1]; [exact Hgen|]. destruct t1; try exact Hgen.
+    + destruct lp; [apply okres_ok; simpl; lia | apply okres_err].
+    + apply okres_err.
+Qed.
+
+Lemma T_args : forall ts, starts_args ts = 1 -> 8 * length ts + 3 <= S F -> okres (pred (length ts)) (p_args false (S F) ts).
+Proof.
+  intros ts Hs HF.
+  assert (Hgen : forall lp r0, length r0 <= length ts -> (lp = false -> r0 = ts) -> (lp = true -> S (length r0) = length ts) ->
+                 okres (pred (length ts))
+                   (bind (p_expr false F None false r0) (fun '(a, r1) => p_args_loop false F lp [a] r1))).
+  { intros lp r0 Hle Hf Ht. pose proof (starts_args_nonempty _ Hs).
+    eapply okres_bind'; [apply IHe; lia|]. intros a r1 _ Hr. cbv beta iota.
+    eapply okres_weaken; [apply IHt; lia | lia]. }
+  destruct ts as [|t r]; [discriminate|]. destruct t; try discriminate.
+  - simpl. apply (Hgen false); auto; intros; discriminate.
+  - simpl. apply (Hgen false); auto; intros; discriminate.
+  - simpl in Hs. simpl. apply (Hgen false); auto; intros; discriminate.
+  - (* with parentheses *)
+    simpl p_args. destruct r as [|t1 r1].
+    + apply (Hgen true []); simpl; auto; intros; discriminate.
+    + destruct t1; try (apply (Hgen true); simpl; auto; intros; discriminate).
+      apply okres_ok. simpl. lia.
+Qed.
+
+Lemma finish_okres : forall chunk min w top below ts, 8 * length ts + 4 + extra below <= S F ->
+  okres (length ts)
+    (if length (stk top below) <=? 1 then loop_exit (stk top below) ts
+     else bind (collect_all (length (stk top below)) (stk top below))
+               (fun st' => p_loop false F chunk min w st' ts)).
+Proof.
+  intros chunk min w top below ts HF. rewrite (stk_length top below).
+  destruct below as [|[o l] b].
+  - simpl. apply okres_ok. lia.
+  - replace (S (2 * length ((o, l) :: b)) <=? 1) with false by (symmetry; apply Nat.leb_gt; simpl; lia).
+    rewrite collect_all_stk by (simpl; lia). rewrite bind_ok.
+    apply (IHp chunk min w (fold_stack top ((o, l) :: b)) [] ts). simpl in *. lia.
+Qed.
+
+Lemma T_loop : forall chunk min w top below ts, 8 * length ts + 4 + extra below <= S F ->
+  okres (length ts) (p_loop false (S F) chunk min w (stk top below) ts).
+Proof.
+  intros chunk min w top below ts HF.
+  pose proof (finish_okres chunk min w top below ts HF) as Hfin.
+  assert (Hjux : forall t r, ts = t :: r -> starts_args ts = 1 ->
+            okres (length ts)
+              (bind (p_args false F ts)
+                    (fun '(args, r0) => match stk top below with
+                                        | IExpr obj :: st' => p_loop false F chunk min w (IExpr (mk_call obj args) :: st') r0
+                                        | _ => Panic
+                                        end))).
+  { intros t r -> Hs. eapply okres_bind'; [apply IHa; [exact Hs|simpl in *; lia]|]. intros args r0 _ Hr. cbv beta iota.
+    unfold stk at 1. change (IExpr (mk_call top args) :: stk_below below) with (stk (mk_call top args) below).
+    eapply okres_weaken; [apply IHp; simpl in *; destruct below; simpl; lia | simpl in *; lia]. }
+  destruct ts as [|t r]; [exact Hfin|].
+  destruct t.
+  - (* identifier *) destruct chunk; [|exact Hfin]. simpl p_loop. eapply Hjux; reflexivity.
+  - (* literal *) destruct chunk; [|exact Hfin]. simpl p_loop. eapply Hjux; reflexivity.
+  - (* binary operator *)
+    destruct (if chunk then true else min_ok min o) eqn:Hg.
+    + rewrite p_loop_bin_acc by exact Hg. rewrite reduce_model, bind_ok.
+      eapply okres_bind'; [apply IHl; simpl in HF; lia|]. intros e r' _ Hr. cbv beta iota.
+      change (IExpr e :: IOp o :: stk (fst (reduce_spec o top below)) (snd (reduce_spec o top below)))
+        with (stk e ((o, fst (reduce_spec o top below)) :: snd (reduce_spec o top below))).
+      eapply okres_weaken; [apply IHp; simpl in *; lia | simpl; lia].
+    + rewrite p_loop_finish; [exact Hfin|]. simpl. rewrite Hg. reflexivity.
+  - (* prefix operator *) exact Hfin.
+  - (* `.` *)
+    destruct r as [|t2 r']; [apply okres_err|].
+    destruct t2; try apply okres_err.
+    rewrite p_loop_dot.
+    assert (Hattr : okres (length (TDot adj :: TSym n :: r')) (p_loop false F chunk min w (stk (EAttr top n) below) r')).
+    { eapply okres_weaken; [apply IHp; simpl in *; destruct below; simpl; lia | simpl; lia]. }
+    destruct (match r' with TDot true :: _ => true | _ => false end); [exact Hattr|].
+    destruct (starts_args r') as [|[|[|k]]] eqn:Es; try exact Hattr.
+    + pose proof (starts_args_nonempty _ Es).
+      eapply okres_bind'; [apply IHa; [exact Es|simpl in *; lia]|]. intros args r0 _ Hr. cbv beta iota.
+      eapply okres_weaken; [apply IHp; simpl in *; destruct below; simpl; lia | simpl; lia].
+    + apply okres_unm.
+  - (* `(` *) exact Hfin.
+  - (* `)` *) exact Hfin.
+  - (* `,` *) destruct w; [apply okres_unm|]. exact Hfin.
+Qed.
+
+End Step.
+
+Lemma T_all_holds : forall F, T_all F.
+Proof.
+  induction F as [|F IH].
+  - repeat split; intros; try lia; exfalso; lia.
+  - unfold T_all.
+    split; [intros; apply (T_expr F IH); assumption|].
+    split; [intros; apply (T_lhs F IH); assumption|].
+    split; [intros; apply (T_chain F IH); assumption|].
+    split; [intros; apply (T_juxt F IH); assumption|].
+    split; [intros; apply (T_args F IH); assumption|].
+    split; [intros; apply (T_tl F IH); assumption|].
+    intros; apply (T_loop F IH); assumption.
+Qed.
+
+(** no input makes the parser model run out of fuel, and no enum_unwrap!/unwrap on the modelled path can fail *)
+Lemma parse_total_proof : forall ts,
+  parse ts <> Fuel /\ parse ts <> Panic /\ parse_chunk false ts <> Fuel /\ parse_chunk false ts <> Panic.
+Proof.
+  intros ts.
+  assert (H1 : okres (pred (length ts)) (p_expr false (fuel_of ts) None true ts)).
+  { apply (proj1 (T_all_holds (fuel_of ts))). unfold fuel_of. lia. }
+  assert (H2 : okres (pred (length ts)) (p_lhs false (fuel_of ts) ts)).
+  { apply (proj1 (proj2 (T_all_holds (fuel_of ts)))). unfold fuel_of. lia. }
+  split; [|split; [|split]].
+  - unfold parse, parse_rhs. destruct H1 as (Ha & Hb & _).
+    destruct (p_expr false (fuel_of ts) None true ts) as [[e r]| | | |]; simpl; try congruence; destruct r; discriminate.
+  - unfold parse, parse_rhs. destruct H1 as (Ha & Hb & _).
+    destruct (p_expr false (fuel_of ts) None true ts) as [[e r]| | | |]; simpl; try congruence; destruct r; discriminate.
+  - unfold parse_chunk. destruct H2 as (Ha & Hb & Hc).
+    destruct (p_lhs false (fuel_of ts) ts) as [[e r]| | | |]; simpl; try congruence.
+    specialize (Hc e r eq_refl).
+    assert (H3 : okres (length r) (p_loop false (fuel_of ts) true None true (stk e []) r)).
+    { apply (proj2 (proj2 (proj2 (proj2 (proj2 (proj2 (T_all_holds (fuel_of ts)))))))). unfold fuel_of. simpl. lia. }
+    destruct H3 as (Hd & He & _). unfold stk in Hd, He. simpl in Hd, He.
+    destruct (p_loop false (fuel_of ts) true None true [IExpr e] r) as [[e' r']| | | |]; simpl; try congruence; destruct r'; discriminate.
+  - unfold parse_chunk. destruct H2 as (Ha & Hb & Hc).
+    destruct (p_lhs false (fuel_of ts) ts) as [[e r]| | | |]; simpl; try congruence.
+    specialize (Hc e r eq_refl).
+    assert (H3 : okres (length r) (p_loop false (fuel_of ts) true None true (stk e []) r)).
+    { apply (proj2 (proj2 (proj2 (proj2 (proj2 (proj2 (T_all_holds (fuel_of ts)))))))). unfold fuel_of. simpl. lia. }
+    destruct H3 as (Hd & He & _). unfold stk in Hd, He. simpl in Hd, He.
+    destruct (p_loop false (fuel_of ts) true None true [IExpr e] r) as [[e' r']| | | |]; simpl; try congruence; destruct r'; discriminate.
+Qed.
